@@ -85,10 +85,39 @@ def noop_node(rng, nprng, kind, size, channels, in_run):
     return n
 
 
+def enabled_effects(n):
+    fx = n.get("effects")
+    if not fx or not fx.get("master", True):
+        return []
+    return [e["kind"] for e in fx.get("items", []) if e.get("enabled", True)]
+
+
 def is_noop(n, kind, size):
+    """is the node a no-op of that kind BY THE PROPERTY'S TEXT (hidden / fully transparent / zero opacity / outside), whatever
+    effects it carries?  (`transparent+stroke-effect` is the known finding: see findings.d/C13.json)"""
     W, H = size
-    if n["t"] != "pixel" or n.get("knockout"):
+    if n.get("knockout"):
         return False
+    if kind == "adjustment":
+        return n["t"] == "adjustment"
+    fxk = enabled_effects(n)
+    if n["t"] == "fill":
+        if kind == "hidden":
+            return not n.get("visible", True)
+        if kind == "zero-opacity":
+            return n.get("opacity") == 0
+        if kind == "masked-out":
+            mk = n.get("mask")
+            return bool(mk) and not mk.get("disabled") and mk.get("bg", 0) == 0 and not np.asarray(mk["data"]).any() and "stroke" not in fxk
+        return False
+    if n["t"] != "pixel":
+        return False
+    if kind == "transparent+stroke-effect":
+        return n.get("alpha") is not None and not np.asarray(n["alpha"]).any() and "stroke" in fxk
+    if kind in ("transparent", "masked-out") and "stroke" in fxk:
+        return False            # the stroke effect of a layer without any shape is drawn over its whole box (known finding)
+    if kind == "zero-fill" and fxk:
+        return False            # fill opacity does not apply to layer effects (by design, as in Photoshop)
     if kind == "hidden":
         return not n.get("visible", True)
     if kind == "transparent":
@@ -205,6 +234,14 @@ def check_law(doc_t, law, want_model=False):
     a_real = None
     W, H = doc_t["size"]
     canvas = (0, 0, W, H)
+    # the law under a custom layer_filter: {"hidden_ok": [names], "drop": [names]} or "all" (accept every layer)
+    fspec = law.get("filter")
+    lf = None
+    if fspec == "all":
+        lf = lambda layer: True
+    elif fspec:
+        lf = cc.name_filter(**fspec)
+    rc = lambda psd, **kw: cc.real_composite(psd, layer_filter=lf, **kw) if lf is not None else cc.real_composite(psd, **kw)
     try:
         if kind == "noop":
             nodes = find_named(doc_t["recipe"], "noop")
@@ -216,7 +253,7 @@ def check_law(doc_t, law, want_model=False):
                 out["invalid"] = True
                 return out
             psd_t = cc.build(doc_t)
-            a, b = cc.real_composite(psd_t), cc.real_composite(cc.build(base))
+            a, b = rc(psd_t), rc(cc.build(base))
             a_real = a
             if law["noop"] == "zero-opacity":
                 a = (a[0], b[1], a[2])          # the shape of a zero-opacity layer is still its shape (theorem: alpha and colour)
@@ -232,13 +269,13 @@ def check_law(doc_t, law, want_model=False):
                 out["invalid"] = True
                 return out
             psd_t = cc.build(doc_t)
-            a, b = cc.real_composite(psd_t), cc.real_composite(cc.build(base))
+            a, b = rc(psd_t), rc(cc.build(base))
             V = canvas
         elif kind == "viewport":
             V, ref = tuple(law["V"]), tuple(law["ref"])
             psd_t = cc.build(doc_t)
-            a = cc.real_composite(psd_t, viewport=V)
-            b = crop(cc.real_composite(psd_t, viewport=None if ref == canvas else ref), ref, V)
+            a = rc(psd_t, viewport=V)
+            b = crop(rc(psd_t, viewport=None if ref == canvas else ref), ref, V)
         elif kind == "compression":
             psd_t = cc.build(doc_t, compression=Compression[law["codec"]])
             a, b = cc.real_composite(psd_t), cc.real_composite(cc.build(doc_t))
@@ -268,6 +305,21 @@ def check_law(doc_t, law, want_model=False):
             tgt.top = tgt.top + law["dy"]
             a, b = cc.real_composite(psd_t), cc.real_composite(cc.save_reopen(psd_t))
             V = canvas
+        elif kind == "reopen-after-edit":
+            # an API edit of one layer (clipping flag, visibility, blend mode, opacity): the edited document in memory and its
+            # saved-and-reopened copy must composite the same
+            psd_t = cc.build(doc_t)
+            for top in psd_t:
+                if top.is_group():
+                    _ = top.bbox
+            _ = cc.real_composite(psd_t)            # whatever the compositor caches is cached before the edit
+            tgt = [l for l in psd_t.descendants() if l.name == law["target"]]
+            if len(tgt) != 1:
+                out["invalid"] = True
+                return out
+            apply_edit(tgt[0], law["edit"])
+            a, b = cc.real_composite(psd_t), cc.real_composite(cc.save_reopen(psd_t))
+            V = canvas
         else:
             raise ValueError(kind)
     except Exception as e:
@@ -280,8 +332,8 @@ def check_law(doc_t, law, want_model=False):
     out["mismatch"] = out["mismatch"] or cc.compare(a, b)
     out["range"] = cc.in_unit_interval(a)
     out["zero_alpha_colour"] = zero_alpha_colour_differs(a, b)
-    if want_model and np.asarray(a[1]).size:
-        xd = cc.XDoc(psd_t)
+    if want_model and np.asarray(a[1]).size and kind != "reopen-after-edit" and not has_fx(doc_t):
+        xd = cc.XDoc(psd_t, lf)
         pixels, reqs = xd.requests(V)
         out["model"] = {"pixels": pixels, "reqs": reqs, "V": V, "nch": xd.nch, "real": a if a_real is None else a_real}
         if kind == "viewport":
@@ -289,6 +341,21 @@ def check_law(doc_t, law, want_model=False):
             out["model"]["ref_reqs"] = xd.requests(tuple(law["ref"]), pixels=pixels)[1]
             out["model"]["hyp"] = all(_view_eq(n, V, tuple(law["ref"])) for n in xd.layers)
     return out
+
+
+def apply_edit(layer, edit):
+    from psd_tools.constants import BlendMode
+    k = edit["kind"]
+    if k == "clip":
+        layer.clipping_layer = bool(edit["value"])
+    elif k == "visible":
+        layer.visible = bool(edit["value"])
+    elif k == "blend":
+        layer.blend_mode = BlendMode[edit["value"]]
+    elif k == "opacity":
+        layer.opacity = int(edit["value"])
+    else:
+        raise ValueError(k)
 
 
 def _inter(a, b):
@@ -315,6 +382,10 @@ def wrap_still_whole(wrapped_recipe):
                     return False
                 return True
     return False
+
+
+def has_fx(doc):
+    return any(n["t"] in ("fill", "adjustment") or n.get("effects") for n in cc.walk(doc["recipe"]))
 
 
 def eval_task(task):
@@ -400,25 +471,30 @@ def make_tasks(ctx, docs, per_doc_noop, per_doc_wrap, rng=None):
 # reporting
 # ------------------------------------------------------------------------------------------
 def law_json(task):
-    return {"doc": dict(task["doc_t"], recipe=cc.recipe_to_json(task["doc_t"]["recipe"])), "law": task["law"]}
+    import comp_fx
+    return {"doc": dict(task["doc_t"], recipe=comp_fx.recipe_to_json(task["doc_t"]["recipe"])), "law": task["law"]}
 
 
 def law_from_json(j):
-    return {"doc_t": dict(j["doc"], recipe=cc.recipe_from_json(j["doc"]["recipe"])), "law": j["law"]}
+    import comp_fx
+    return {"doc_t": dict(j["doc"], recipe=comp_fx.recipe_from_json(j["doc"]["recipe"])), "law": j["law"]}
 
 
 def law_prefix(law):
     k = law["kind"]
+    flt = "+layer-filter" if law.get("filter") else ""
     if k == "noop":
-        return f"C13/noop/{law['noop']}"
+        return f"C13/noop/{law['noop']}{flt}"
     if k == "wrap":
-        return "C13/passthrough-wrap"
+        return f"C13/passthrough-wrap{flt}"
     if k == "viewport":
-        return f"C13/viewport/{law['class']}"
+        return f"C13/viewport/{law['class']}{flt}"
     if k == "compression":
         return f"C13/compression/{law['codec']}"
     if law["kind"] == "reopen-after-move":
         return "C13/save-reopen-after-edit"
+    if law["kind"] == "reopen-after-edit":
+        return f"C13/save-reopen-after-edit/{law['edit']['kind']}"
     return "C13/save-reopen"
 
 
@@ -444,7 +520,8 @@ def report(ctx, task, res):
     r = check_law(small, law)
     if not bad(r):
         t2, r = task, res
-    feats = cc.feature_sig(base_doc(t2))
+    import comp_fx
+    feats = cc.feature_sig(base_doc(t2), sorted(comp_fx.fx_features(t2["doc_t"])))
     if t2["doc_t"]["mode"] == "CMYK" and set(cc.blend_modes(t2["doc_t"])) & set(cc.NONSEP_UP):
         # root cause outside the compositor: the CMYK wrapper of the non-separable blend functions returns values
         # outside [0,1] (known findings of C12), which breaks hypothesis BOk of the theorems
@@ -654,7 +731,11 @@ def fixtures(ctx, st, limit_area, max_files):
 # the check
 # ------------------------------------------------------------------------------------------
 def run(ctx: core.Run):
-    ctx.prove(["PsdVerif.Props.C13"])
+    import sys
+    import c13_fx
+    import extract_fx
+    ctx.regenerate(extract_fx.gen_composite_fx)
+    ctx.prove(["PsdVerif.Props.C13", "PsdVerif.Props.C13Fx"])
     st = {"corr_da": 0.0, "corr_dc": 0.0}
     rng = ctx.rng
     corpus = json.loads((core.VERIF / "harness" / "corpus" / "C13.json").read_text())
@@ -691,6 +772,13 @@ def run(ctx: core.Run):
         process(ctx, tasks[k:k + 4000], st)
     ctx.sample({"law": tasks[0]["law"], "doc": {"size": docs[0]["size"], "mode": docs[0]["mode"], "features": cc.feature_sig(docs[0])}})
     fixtures(ctx, st, 700 * 700 if ctx.quick else 1400 * 1400, 30 if ctx.quick else None)
+    # the wider search: effect-carrying documents, effect-carrying no-op layers, laws under layer filters, API edits
+    ftasks = c13_fx.make_tasks(ctx, sys.modules[__name__], ctx.quick)
+    for t in ftasks:
+        ctx.hist("wider_search", ("fx:" if t["law"].get("fx") else "filter:" if t["law"].get("filter") else "") + t["law"]["kind"])
+    for k in range(0, len(ftasks), 4000):
+        process(ctx, ftasks[k:k + 4000], st)
+    c13_fx.stroke_findings(ctx, sys.modules[__name__])
 
     ctx.extra["max_abs_diff_model_vs_impl_on_transformed_inputs"] = {"alpha_shape": st["corr_da"], "premultiplied_colour": st["corr_dc"]}
     ctx.extra["tolerances"] = {"shape_alpha": cc.TOL_ALPHA, "premultiplied_colour": cc.TOL_COLOR, "alpha_min_for_colour": cc.ALPHA_MIN,
@@ -725,7 +813,7 @@ def run(ctx: core.Run):
     ctx.model_coverage = C11_model_coverage()
     ctx.notes += NOTES
     if ctx.tier == "thorough":
-        ctx.recheck(["PsdVerif.Props.C13"])
+        ctx.recheck(["PsdVerif.Props.C13", "PsdVerif.Props.C13Fx"])
 
 
 def C11_model_coverage():
